@@ -198,6 +198,44 @@ impl<I: Index> TermIndex for SimpleTermIndex<I> {
     }
 }
 
+#[cfg(sophia_verif)]
+impl<I: Index> SimpleTermIndex<I> {
+    /// Verification hook: for each index `i`,
+    /// does `i2t[i]` borrow its string data from the very key that `t2i` maps to `i`?
+    pub fn verif_audit(&self) -> Vec<bool> {
+        fn same_storage(a: &SimpleTerm<'_>, b: &SimpleTerm<'_>) -> bool {
+            fn same(x: &str, y: &str) -> bool {
+                std::ptr::eq(x.as_ptr(), y.as_ptr()) && x.len() == y.len()
+            }
+            use SimpleTerm::*;
+            match (a, b) {
+                (Iri(x), Iri(y)) => same(x.as_str(), y.as_str()),
+                (BlankNode(x), BlankNode(y)) => same(x.as_str(), y.as_str()),
+                (Variable(x), Variable(y)) => same(x.as_str(), y.as_str()),
+                (LiteralDatatype(l1, d1), LiteralDatatype(l2, d2)) => {
+                    same(l1, l2) && same(d1.as_str(), d2.as_str())
+                }
+                (LiteralLanguage(l1, t1), LiteralLanguage(l2, t2)) => {
+                    same(l1, l2) && same(t1.as_str(), t2.as_str())
+                }
+                (Triple(x), Triple(y)) => x.iter().zip(y.iter()).all(|(x, y)| same_storage(x, y)),
+                _ => false,
+            }
+        }
+        let mut by_index: Vec<Option<&SimpleTerm<'static>>> = vec![None; self.i2t.len()];
+        for (k, v) in &self.t2i {
+            if let Some(slot) = by_index.get_mut(v.into_usize()) {
+                *slot = Some(k);
+            }
+        }
+        self.i2t
+            .iter()
+            .zip(by_index)
+            .map(|(t, k)| k.is_some_and(|k| same_storage(t, k)))
+            .collect()
+    }
+}
+
 impl<I: Index> GraphNameIndex for SimpleTermIndex<I> {
     fn get_default_graph_index(&self) -> Self::Index {
         Self::Index::MAX
